@@ -4,12 +4,16 @@ import json, os, sys
 sys.path.insert(0, os.path.dirname(os.path.abspath(__file__)))
 from props import PROPS
 from manifest_meta import META, NOT_APPLICABLE, HOOK_COMMITS
+try:
+    from ready import READY
+except ImportError:
+    READY = None
 
 ROOT = os.path.dirname(os.path.dirname(os.path.abspath(__file__)))
 ids = [json.loads(l)["id"] for l in open(os.path.join(ROOT, "properties.jsonl"))]
 checks = []
 for pid in ids:
-    if pid not in PROPS or pid not in META:
+    if pid not in PROPS or pid not in META or (READY is not None and pid not in READY):
         continue
     m = META[pid]
     checks.append({
